@@ -31,13 +31,16 @@ def suite(d):
     return True, "pass"
 
 
+RACE = False
+
+
 def run_demo(d, demo, pkgdir, times=3):
     dst = os.path.join(d, pkgdir, "zz_seed_demo_test.go")
     shutil.copy(demo, dst)
     fails = 0
     last = ""
     for _ in range(times):
-        rc, out = sh("go test -vet=off -count=1 -run 'Demo|Seed|C[0-9][0-9]' ./%s" % pkgdir, cwd=d, timeout=900)
+        rc, out = sh("go test %s-vet=off -count=1 -run 'Demo|Seed|C[0-9][0-9]' ./%s" % ("-race " if RACE else "", pkgdir), cwd=d, timeout=900)
         if rc != 0:
             fails += 1
             last = out[-1500:]
@@ -52,7 +55,10 @@ def main():
     ap.add_argument("name")
     ap.add_argument("--checks")
     ap.add_argument("--dir")
+    ap.add_argument("--race", action="store_true", help="run the demonstration with go test -race")
     a = ap.parse_args()
+    global RACE
+    RACE = a.race
     patch = os.path.join(a.vdir, "patch.diff")
     demo = os.path.join(a.vdir, "demo_test.go")
     readme = open(os.path.join(a.vdir, "README.md")).read() if os.path.exists(os.path.join(a.vdir, "README.md")) else ""
@@ -62,7 +68,7 @@ def main():
         m = re.search(r"((?:pkg|internal)/[A-Za-z0-9_/]+)", head)
         pkgdir = m.group(1).rstrip("/") if m else "pkg/resource"
     checks = a.checks.split(",") if a.checks else [a.prop]
-    meta = dict(property=a.prop, name=a.name, demo_package=pkgdir, checks_run=checks, when=time.strftime("%Y-%m-%d %H:%M:%S"))
+    meta = dict(property=a.prop, name=a.name, demo_package=pkgdir, demo_needs_race_detector=a.race, checks_run=checks, when=time.strftime("%Y-%m-%d %H:%M:%S"))
     clean = tempfile.mkdtemp(prefix="seedclean.")
     mut = tempfile.mkdtemp(prefix="seedmut.")
     try:
